@@ -75,7 +75,7 @@ func c10Engine(c *lab.Ctx) {
 	}
 	clusters := []string{}
 	for _, p := range engineProtos {
-		clusters = append(clusters, "cl-"+p, "cl-"+p+"-lim", "cl-"+p+"-one", "cl-"+p+"-mix", "cl-"+p+"-empty", "cl-"+p+"-dead")
+		clusters = append(clusters, "cl-"+p, "cl-"+p+"-lim", "cl-"+p+"-one", "cl-"+p+"-mix", "cl-"+p+"-empty", "cl-"+p+"-dead", "cl-"+p+"-hole", "cl-"+p+"-holemix")
 	}
 	// (1) sign sampler
 	var stop int32
@@ -125,7 +125,7 @@ func c10Engine(c *lab.Ctx) {
 						case 1:
 							cs.key, cs.plan = "empty", "ok"
 						case 2:
-							cs.key, cs.plan = "dead", "ok"
+							cs.key, cs.plan = crng.PickStr("dead", "hole"), "ok"
 						case 3:
 							cs.key, cs.plan = "zzz-noroute", "ok"
 						case 4, 5:
@@ -133,7 +133,7 @@ func c10Engine(c *lab.Ctx) {
 						case 6:
 							cs.key, cs.plan = "retry0", c03Retry0Plans[crng.Intn(len(c03Retry0Plans))]
 						case 8:
-							cs.key, cs.plan = crng.PickStr("mix", "mixon"), c03MixPlans[crng.Intn(len(c03MixPlans))]
+							cs.key, cs.plan = crng.PickStr("mix", "mixon", "holemix", "holemixon"), c03MixPlans[crng.Intn(len(c03MixPlans))]
 						case 7:
 							// the upstream answers and announces that the connection goes away (bolt go-away / HTTP/2 GOAWAY / Connection: close)
 							cs.key, cs.plan = "fast", crng.PickStr("ok:goaway", "d30:ok:goaway", "s503:goaway")
@@ -274,7 +274,7 @@ func c10Conservation(c *lab.Ctx, e *engine, clusters []string, when string, peer
 			// truth = the kernel's view: ESTABLISHED sockets whose remote end is one of this protocol's upstream ports
 			sockets := func() int64 {
 				var n int64
-				for _, hn := range []string{"a", "b", "c", "d", "m"} {
+				for _, hn := range []string{"a", "b", "c", "d", "m", "n"} {
 					n += int64(establishedTo(e.ups[p+"-"+hn].port()))
 				}
 				return n
